@@ -981,7 +981,7 @@ def run_c19(ctx):
     if pb.returncode == 0:
         race["ran"] = True
         race["reports"] = 0
-        for area in (["srv-burst", "clirace", "cliflow"] if not ctx.thorough() else ["srv-burst", "srv-err", "srv-goaway", "clirace", "cliflow", "cliresolve", "cligoaway"]):
+        for area in (["srv-burst", "clirace", "cliflow", "clistall"] if not ctx.thorough() else ["srv-burst", "srv-err", "srv-goaway", "clirace", "cliflow", "cliresolve", "cligoaway", "clistall"]):
             p = subprocess.run([hb, "gen", area, "quick", str(ctx.seed)], stdout=subprocess.PIPE, stderr=subprocess.PIPE, text=True)
             if p.returncode != 0:
                 continue
